@@ -100,3 +100,8 @@ Example cov2_device_svg_at_former_traps :
   /\ device_count 12 8 = Some 0 /\ device_count 0 65535 = Some 65536
   /\ svg_doc_slice 4294967295 4294901760 6 = Some None.
 Proof. repeat split; vm_compute; reflexivity. Qed.
+
+(* ---- link score: a standard width of Some 0 (stemless standard glyph) behaves like None ---- *)
+Example link_score_zero_width : link_score (Some 0) 100 50 2929 = Some 158 /\ link_score None 100 50 2929 = Some 158
+  /\ link_score (Some 80) 100 50 2929 = Some 79 /\ link_score (Some 1) 65535 1 0 = Some 32000.
+Proof. repeat split; vm_compute; reflexivity. Qed.
